@@ -1044,7 +1044,9 @@ Definition w_cycle : world :=
 Example ex_terminates_cycle :
   exists t, build w_cycle (fuel_for w_cycle) FHdf5 0 [] = Some t
             /\ depth t = 4%nat
+            /\ map (fun rb => b_key (rb_b rb)) (tree_edges t) = [0; 1; 2]
             /\ tfb w_cycle t = [0; 1; 2]
+            /\ tcontains w_cycle t 2 = true
             /\ tget w_cycle t 2 = Some 2.
 Proof. eexists. repeat split; vm_compute; reflexivity. Qed.
 
